@@ -1,14 +1,15 @@
 #!/bin/sh
 # Runs every seeded change under /verif/seeded/<Cxx-k>/ through mutest.sh against its property's check and tabulates.
-#   selftest/run_seeds.sh [name-prefix]      results -> selftest/seed_results.txt
+#   selftest/run_seeds.sh [name-prefix]      results -> selftest/seed_results.txt   (env SEEDS_PARALLEL, default 6)
 cd /verif
 out=selftest/seed_results.txt
-: > $out.tmp
-for d in seeded/${1:-}*/; do
-  n=$(basename $d); id=${n%%-*}
-  r=$(selftest/mutest.sh $d/patch.diff $id 2>&1 | tail -8)
+tmp=$(mktemp -d /tmp/runseeds.XXXXXX)
+ls -d seeded/${1:-}*/ | xargs -P ${SEEDS_PARALLEL:-6} -I{} sh -c '
+  d={}; n=$(basename $d); id=${n%%-*}
+  r=$(selftest/mutest.sh $d/patch.diff $id 2>&1 | grep -v "^KNOWN" | tail -10)
   verdict=$(echo "$r" | grep "^MUTEST" | tail -1)
-  how=$(echo "$r" | grep "replay:" | head -2 | sed 's/^ *replay: //' | cut -c1-160 | tr '\n' ';')
-  echo "$n | $verdict | $how" | tee -a $out.tmp
-done
-mv $out.tmp $out
+  how=$(echo "$r" | grep "replay:" | head -2 | sed "s/^ *replay: //" | cut -c1-160 | tr "\n" ";")
+  echo "$n | $verdict | $how" > '$tmp'/$n'
+cat $tmp/* | sort -V > $out
+rm -rf $tmp
+grep -c DETECTED $out; grep -v DETECTED $out
